@@ -7,7 +7,9 @@ C08–C12 are proved.
 What is tied: the BOOKKEEPING — acceptance, lifecycle state, the outstanding / search id sets, the message
 counter, the outgoing buffer.  What is abstract (and therefore trusted here, covered by other theorems and
 tests): `msg.pack(options)` is the model's `encMsg msg`; the unpacking half of `receive` is a parameter of the
-generated function, instantiated in the theorems by `unpackOracle` = what the model's `parseLoop` returns.
+generated function: since round 12 ONLY the call `unpack_ldap_message(reader, options)` (parameter `unpack`,
+instantiated by the model's `decMsg regs depth`); the loops around it are translated and proved to be `parseLoop`
+(`Props/TiesSessionRecv.lean`).
 
 State abstraction (both directions explicit, `Proofs/SessionGenBase.lean`):
   `absS r regs : St → Sess`      generated field record ↦ model session (`r` = class of `self`,
@@ -138,57 +140,99 @@ theorem tie_server_loop (regs : Regs) (ms : List Msg) (st : St) :
       = loopRes st.version (offender (absS .server regs st) ms) (processLoop (absS .server regs st) ms) :=
   server_loop_eq regs ms st
 
-/-- `LDAPClient.receive` (wrapper + `LDAPSession.receive`: closed check, loop, `closeSess`, the attached
-    notification with its exact bytes) is the model's `recv`, given the unpacking did what `parseLoop` says -/
+/-- `LDAPClient.receive` (wrapper + `LDAPSession.receive`: closed check, BOTH unpacking loops with the residue
+    handling, the processing loop, `closeSess`, the attached notification with its exact bytes) for
+    `unpack_ldap_message := decMsg regs depth` is the model's `recv` — up to the ONE known difference, made explicit
+    by `recvPy`: `_incoming_buffer` after an unpacking that RAISES on an empty buffer (`pyResidueOnError`).
+    No hypothesis about an abstracted statement any more (round 12; see `Props/TiesSessionRecv.lean`). -/
 theorem tie_client_receive (regs : Regs) (depth : Nat) (st : St) (chunk : Bytes) :
-    LDAPClient_receive st chunk (unpackOracle regs depth st.incoming_buffer chunk)
+    LDAPClient_receive st chunk (decMsg regs depth)
       = recvRes st.version [] (recvRequest depth (absS .client regs st) chunk)
-          (recv depth (absS .client regs st) chunk) :=
+          (recvPy depth (absS .client regs st) chunk) :=
   client_receive_eq regs depth st chunk
 
 theorem tie_server_receive (regs : Regs) (depth : Nat) (st : St) (chunk text : Bytes) :
-    LDAPServer_receive st chunk (unpackOracle regs depth st.incoming_buffer chunk) text
+    LDAPServer_receive st chunk (decMsg regs depth) text
       = recvRes st.version text (recvRequest depth (absS .server regs st) chunk)
-          (recv depth (absS .server regs st) chunk) :=
+          (recvPy depth (absS .server regs st) chunk) :=
   server_receive_eq regs depth st chunk text
 
-/-- one `step (.receive chunk)` of the model -/
-theorem tie_client_receive_step (regs : Regs) (st : St) (chunk : Bytes) :
-    absRes .client regs .msgs
-        (LDAPClient_receive st chunk (unpackOracle regs defaultDepth st.incoming_buffer chunk))
+/-- `recvPy` is `recv` when the buffer was non-empty before the call or the unpacking does not raise -/
+theorem tie_recvPy_eq_recv (depth : Nat) (s : Sess) (chunk : Bytes)
+    (h : s.residue ≠ [] ∨ ∃ p, parseLoop s.regs depth (s.residue ++ chunk).length (s.residue ++ chunk) = .ok p) :
+    recvPy depth s chunk = recv depth s chunk :=
+  recvPy_eq_recv depth s chunk h
+
+/-- and in every case they differ at most in the residue … -/
+theorem tie_recvPy_forget (depth : Nat) (s : Sess) (chunk : Bytes) :
+    forgetResidue (recvPy depth s chunk) = forgetResidue (recv depth s chunk) :=
+  recvPy_forget depth s chunk
+
+/-- … of a session that is CLOSED on both sides (every later `receive` raises at its first statement) -/
+theorem tie_recvPy_differs_only_closed (depth : Nat) (s : Sess) (chunk : Bytes)
+    (h : recvPy depth s chunk ≠ recv depth s chunk) :
+    (recvPy depth s chunk).1.state = .closed ∧ (recv depth s chunk).1.state = .closed :=
+  recvPy_differs_only_closed depth s chunk h
+
+/-- against the model's `recv` itself, without hypothesis: every field but `_incoming_buffer`, and the outcome
+    (the names of round 10 are kept; there they compared two instances of the abstracted statement) -/
+theorem tie_client_receive_any_buffer (regs : Regs) (depth : Nat) (st : St) (chunk : Bytes) :
+    forgetIn (LDAPClient_receive st chunk (decMsg regs depth))
+      = forgetIn (recvRes st.version [] (recvRequest depth (absS .client regs st) chunk)
+          (recv depth (absS .client regs st) chunk)) :=
+  client_receive_any_buffer regs depth st chunk
+
+theorem tie_server_receive_any_buffer (regs : Regs) (depth : Nat) (st : St) (chunk text : Bytes) :
+    forgetIn (LDAPServer_receive st chunk (decMsg regs depth) text)
+      = forgetIn (recvRes st.version text (recvRequest depth (absS .server regs st) chunk)
+          (recv depth (absS .server regs st) chunk)) :=
+  server_receive_any_buffer regs depth st chunk text
+
+/-- one `step (.receive chunk)` of the model: exact when `ResidueAgrees` … -/
+theorem tie_client_receive_step (regs : Regs) (st : St) (chunk : Bytes)
+    (h : ResidueAgrees regs defaultDepth st chunk) :
+    absRes .client regs .msgs (LDAPClient_receive st chunk (decMsg regs defaultDepth))
       = step (absS .client regs st) (.receive chunk) :=
-  client_receive_abs regs defaultDepth st chunk
+  client_receive_abs_model regs defaultDepth st chunk h
 
-theorem tie_server_receive_step (regs : Regs) (st : St) (chunk text : Bytes) :
-    absRes .server regs .msgs
-        (LDAPServer_receive st chunk (unpackOracle regs defaultDepth st.incoming_buffer chunk) text)
+theorem tie_server_receive_step (regs : Regs) (st : St) (chunk text : Bytes)
+    (h : ResidueAgrees regs defaultDepth st chunk) :
+    absRes .server regs .msgs (LDAPServer_receive st chunk (decMsg regs defaultDepth) text)
       = step (absS .server regs st) (.receive chunk) :=
-  server_receive_abs regs defaultDepth st chunk text
+  server_receive_abs_model regs defaultDepth st chunk text h
 
-/-- whatever the unpacking leaves in `_incoming_buffer` when it raises (the Python: nothing, if the buffer
-    was empty before; the model: `residue ++ chunk`), every other field and the outcome are the same -/
-theorem tie_client_receive_any_buffer (b : Bytes) (regs : Regs) (depth : Nat) (st : St) (chunk : Bytes) :
-    forgetIn (LDAPClient_receive st chunk (unpackOracleB b regs depth st.incoming_buffer chunk))
-      = forgetIn (LDAPClient_receive st chunk (unpackOracle regs depth st.incoming_buffer chunk)) :=
-  client_receive_any_buffer b regs depth st chunk
+/-- … and without hypothesis for everything but the residue (outcome, state, id sets, counter, outgoing buffer) -/
+theorem tie_client_receive_step_forget (regs : Regs) (st : St) (chunk : Bytes) :
+    forgetResidue (absRes .client regs .msgs (LDAPClient_receive st chunk (decMsg regs defaultDepth)))
+      = forgetResidue (step (absS .client regs st) (.receive chunk)) :=
+  client_receive_abs_forget regs defaultDepth st chunk
 
-theorem tie_server_receive_any_buffer (b : Bytes) (regs : Regs) (depth : Nat) (st : St) (chunk text : Bytes) :
-    forgetIn (LDAPServer_receive st chunk (unpackOracleB b regs depth st.incoming_buffer chunk) text)
-      = forgetIn (LDAPServer_receive st chunk (unpackOracle regs depth st.incoming_buffer chunk) text) :=
-  server_receive_any_buffer b regs depth st chunk text
+theorem tie_server_receive_step_forget (regs : Regs) (st : St) (chunk text : Bytes) :
+    forgetResidue (absRes .server regs .msgs (LDAPServer_receive st chunk (decMsg regs defaultDepth) text))
+      = forgetResidue (step (absS .server regs st) (.receive chunk)) :=
+  server_receive_abs_forget regs defaultDepth st chunk text
 
-/-- an UnbindRequest among the delivered messages closes the server, no notice is attached -/
-example : ((LDAPServer_receive LDAPServer_new [] ⟨([], [⟨0, .unbind, []⟩]), none⟩ []).2.state,
-           match (LDAPServer_receive LDAPServer_new [] ⟨([], [⟨0, .unbind, []⟩]), none⟩ []).1 with
+/-- an oracle that delivers one UnbindRequest: the server closes, no notice is attached -/
+example : ((LDAPServer_receive LDAPServer_new [1] (fun _ => .ok (⟨0, .unbind, []⟩, [])) []).2.state,
+           match (LDAPServer_receive LDAPServer_new [1] (fun _ => .ok (⟨0, .unbind, []⟩, [])) []).1 with
            | .error (.protocolError (some _) none) => true
            | _ => false)
     = (.CLOSED, true) := by decide
-/-- a ValueError of the unpacking closes the client, the packed UnbindRequest is attached -/
-example : ((LDAPClient_receive LDAPClient_new [] ⟨([48], []), some .valueError⟩).2.state,
-           match (LDAPClient_receive LDAPClient_new [] ⟨([48], []), some .valueError⟩).1 with
+/-- a ValueError of the unpacking closes the client, the packed UnbindRequest is attached; the (empty) buffer
+    stays empty -/
+example : ((LDAPClient_receive LDAPClient_new [48] (fun _ => .error .valueError)).2.state,
+           (LDAPClient_receive LDAPClient_new [48] (fun _ => .error .valueError)).2.incoming_buffer,
+           match (LDAPClient_receive LDAPClient_new [48] (fun _ => .error .valueError)).1 with
            | .error (.protocolError none (some b)) => b
            | _ => [])
-    = (.CLOSED, encMsg unbindMsg) := by decide
+    = (.CLOSED, [], encMsg unbindMsg) := by decide
+/-- NotEnougData on the direct path: the octets are kept -/
+example : ((LDAPClient_receive LDAPClient_new [48, 5] (fun _ => .error .notEnough)).2.incoming_buffer,
+           (LDAPClient_receive LDAPClient_new [48, 5] (fun _ => .error .notEnough)).1.toOption.map (·.length))
+    = ([48, 5], some 0) := by decide
+/-- … and on the buffered path: buffer ++ data -/
+example : (LDAPClient_receive { LDAPClient_new with incoming_buffer := [48] } [5] (fun _ => .error .notEnough)).2.incoming_buffer
+    = [48, 5] := by decide
 
 /-! ### the public send methods: one `step` of the model each -/
 
